@@ -29,6 +29,8 @@ PROPS = {
     'C09': dict(lean_quick=[], prefixes=['p8e0::math', 'p16e1::math', 'p32e2::math']),
     'C10': dict(lean_quick=[], prefixes=['p8e0::{', 'p16e1::{', 'p32e2::{', 'pxe1::{', 'pxe2::{']),
     'C17': dict(lean_quick=[], prefixes=['p8e0', 'p16e1', 'p32e2', 'quire']),
+    'C04': dict(lean_quick=[], prefixes=['quire8', 'quire16', 'quire32']),
+    'C12': dict(lean_quick=[], prefixes=['quire8', 'quire16', 'quire32']),
 }
 OVERRIDE_PROPS = {'C04', 'C12', 'C14', 'C15', 'C16', 'C18'}
 
@@ -65,8 +67,70 @@ def streams(pid, tier, rng, scale=1):
     lines += extra_streams(pid, tier, rng, scale)
     return lines
 
+QT = {'q8': 8, 'q16': 16, 'q32': 32}
+
+def quire_history(qt, rng, maxlen=24, state_ops=True):
+    """one history line for quire type qt: mixed products / single posits, cancellations, tiny terms that live in one limb only,
+    NaR injection, tuple/array/method spellings, neg/clear/from_bits(to_bits)"""
+    from .gen_inputs import anyp, structured_posit
+    n = QT[qt]
+    def P():
+        t = rng.random()
+        if t < 0.03: return 1 << (n - 1) if rng.random() < 0.3 else 0
+        if t < 0.25: return rng.choice((1, 2, 3, (1 << (n - 1)) - 1, (1 << (n - 1)) + 1, (1 << n) - 1, 1 << (n - 2)))
+        return anyp(n, rng) if rng.random() < 0.9 else structured_posit(n, rng)
+    L = rng.choice((1, 1, 2, 2, 3, 4, 6, 8, 12, maxlen))
+    toks = []; terms = []
+    for _ in range(L):
+        t = rng.randint(0, 19)
+        if t <= 4:
+            a, b = P(), P(); toks += ['ap', a, b]; terms.append((a, b))
+        elif t <= 7:
+            a, b = P(), P(); toks += ['sp', a, b]
+        elif t == 8: toks += ['a1', P()]
+        elif t == 9: toks += ['s1', P()]
+        elif t == 10 and terms:
+            a, b = rng.choice(terms); toks += ['sp', a, b]              # exact cancellation of an earlier product
+        elif t == 11: toks += [rng.choice(('ap2', 'sp2')), P(), P(), P()]
+        elif t == 12: toks += ['ap3', P(), P(), P(), P()]
+        elif t == 13: toks += [rng.choice(('ap22', 'sp22')), P(), P(), P(), P()]
+        elif t == 14:
+            k = rng.randint(1, 4); toks += [rng.choice(('apa', 'spa')), P(), k] + [P() for _ in range(k)]
+        elif t == 15: toks += [rng.choice(('mp', 'ms', 'tp', 'ts')), P(), P()]
+        elif t == 16 and state_ops: toks += ['neg']
+        elif t == 17 and state_ops: toks += [rng.choice(('rt', 'rt', 'clear'))]
+        elif t == 18: toks += ['ap', 1, rng.choice((1, 2, 3))] if rng.random() < 0.5 else ['sp', 1, 1]   # minpos^2 terms
+        else:
+            a = P(); toks += ['ap', a, (-a) & ((1 << n) - 1)]
+    return qt + ' hist ' + ' '.join(x if isinstance(x, str) else '%x' % x for x in toks)
+
 def extra_streams(pid, tier, rng, scale):
-    return []
+    from .gen_inputs import interesting_posits
+    lines = []
+    big = 10 if tier == 'thorough' else 1
+    if pid in ('C04', 'C12', 'C16', 'C17'):
+        cnt = {'C04': 30000, 'C12': 15000, 'C16': 4000, 'C17': 4000}[pid] * scale * big
+        for qt in QT:
+            for _ in range(cnt):
+                l = quire_history(qt, rng)
+                lines.append(l)
+                if pid == 'C04' and rng.random() < 0.1:
+                    # the same multiset of terms in another order (order independence), only for plain product terms
+                    toks = l.split()[2:]
+                    if all(t in ('ap', 'sp') or t[0] in '0123456789abcdef' for t in toks) and len(toks) % 3 == 0:
+                        trip = [toks[i:i + 3] for i in range(0, len(toks), 3)]
+                        rng.shuffle(trip)
+                        lines.append(qt + ' hist ' + ' '.join(' '.join(t) for t in trip))
+    if pid == 'C12':
+        # posit -> quire -> posit round trip and the state operations on single-posit states
+        for qt, n in QT.items():
+            xs = range(1 << n) if n <= 16 else interesting_posits(n, rng, 60000 * scale * big)
+            for x in xs:
+                lines.append('%s hist fp %x' % (qt, x))
+            for x in (interesting_posits(n, rng, 3000)):
+                lines.append('%s hist fp %x neg' % (qt, x))
+                lines.append('%s hist a1 %x rt neg neg' % (qt, x))
+    return lines
 
 def distinct_nontrivial(pid, passes):
     n = 0
